@@ -72,7 +72,10 @@ def global_fingerprint():
             items.append(_summ(mname, k, v))
             if isinstance(v, type) and getattr(v, "__module__", None) == mname:
                 for ck, cv in sorted(vars(v).items()):
-                    if ck.startswith("__") or ck in ("_lrtable", "_grammar", "_rules", "_master_re", "_attributes", "_token_funcs"):
+                    if ck.startswith("__"):
+                        continue
+                    if ck in ("_lrtable", "_grammar", "_rules", "_master_re", "_attributes", "_token_funcs"):
+                        items.append((mname + "." + k, ck, "heavy", type(cv).__name__))  # e.g. None -> LRTable (lazy build)
                         continue
                     items.append(_summ(mname + "." + k, ck, cv))
     return zlib.crc32(repr([i for i in items if i]).encode())
